@@ -440,6 +440,16 @@ for _id, _prop, _rule, _desc, _eb in [
     ("c18-remapper-stores-key", "C18", "R18.2", "BlockIndexRemapper look-aside (C18k/2) that remembers found->first, the old index, as the translation", False),
     ("c18-remap-takes-key", "C18", "R18.2", "cdns-merge pass 2 assigning new_index->first (the block's old index) instead of the mapped value", False),
     ("c18-remapper-key-not-compared", "C18", "R18.1", "BlockIndexRemapper look-aside (C18k/2) that reuses the remembered pair for any key", True),
+    ("c18-version-test-inverted", "C18", "R18.3", "cdns-merge rejecting an input when its minor version EQUALS the reference's", False),
+    ("c18-end-test-inverted", "C18", "R18.2", "cdns-merge pass 2 with `if (!end) break;`: every block dropped", False),
+    ("c18-itemcount-end-test-inverted", "C18", "R18.4", "cdns-itemcount with `if (!end) break;`: nothing counted", False),
+    ("c07-skip-level-not-popped", "C07", "R07.13", "skip_item that does not pop the level its stop code ends", False),
+    ("c07-skip-indef-flag-inverted", "C07", "R07.13", "skip_item looking for the stop code on definite levels", False),
+    ("c07-skip-items-not-counted", "C07", "R07.13", "skip_item that never counts items off a definite level", False),
+    ("c07-skip-pop-when-items-left", "C07", "R07.13", "skip_item that pops a definite level while items are left", False),
+    ("c07-indef-string-loop-inverted", "C07", "R07.2", "read_string looping while the next byte IS the stop code", False),
+    ("c01-filled-flag-lowered", "C01", "R01.17", "add_malformed_message lowering mmd_filled after storing the payload", False),
+    ("c01-filled-flag-not-raised", "C01", "R01.17", "add_question_response_record storing qrs.qr_type without raising qrs_filled", False),
     ("c19-memo-not-reset", "C19", "R19.2", "ip-address lookup memo (C12g/3) that CdnsBlock::operator= does not reset", False),
     ("c16-guard-armed-early", "C16", "R16.6", "BlockClearGuard (C12g/2) armed before the write it guards", False),
     ("c16-guard-armed-early-c12", "C12", "R12.4", "BlockClearGuard (C12g/2) armed before the write it guards", False),
